@@ -3,6 +3,9 @@
 M : Wire.tla — byte-level layout of StackInputs / StackOutputs / Kernel / ProgramInfo; TLC enumerates byte strings
     (declared counts x element encodings 0, 1, p-1, p, 2^64-1 x truncation at the tail x trailing bytes) and checks on the
     model that an accepted value re-encodes to the consumed prefix and that every proper prefix of it is rejected.
+    Text containers: the LibraryPath grammar (special first component, "::" delimiter, label characters, length limits);
+    TLC enumerates every sequence of <= 3 (thorough: 4) syntax tokens x declared lengths (GEN_WirePath); each string is
+    decoded as a LibraryPath and as the import path spliced into a serialised module.
 R : every string is fed to the real decoder: no panic; an accepted value must re-serialise to bytes that decode to an
     equal value; a well-formed encoding (model: ok) must be accepted and re-encode to the same bytes; every decoded
     statement part is handed to `verify` together with a valid proof and must not make it panic.  Large formats
@@ -90,6 +93,22 @@ def run(tier, replay=None):
         c = json_prints(r, "canon")
         if c:
             canon = c[0]["vals"]
+    # text container: library paths (the decoder of imports / module paths inside module ASTs and library files)
+    cfgp = os.path.join(wd, "GEN_WirePath.cfg")
+    with open(cfgp, "w") as f:
+        f.write("CONSTANTS N = %d\nINIT Init\nNEXT Next\nINVARIANT ModelReEncode\nCHECK_DEADLOCK FALSE\n" % (4 if thorough else 3))
+    r = tlc_or_die("GEN_WirePath.tla", cfg=cfgp, cwd=os.path.join(SPEC, "gen"), workers=4, timeout=3000, heap="6g")
+    ck.add_tlc(r)
+    if r.violation:
+        ck.violation("spec:Wire:" + r.violation, "wire model property violated", {"tlc": r.out[-2000:]})
+    paths = json_prints(r, "wire")
+    if len(paths) < 1000:
+        raise ToolError("GEN_WirePath produced only %d strings" % len(paths))
+    for s_ in paths:
+        recs.append({"type": "LibraryPath", "hex": bytes(s_["bytes"]).hex()})
+        expect.append(s_)
+        recs.append({"type": "ModuleAst:import", "hex": bytes(s_["bytes"]).hex()})
+        expect.append(None)
     # large formats
     cpath = os.path.join(wd, "corpus.ndjson")
     run_harness("release", ["codec-corpus", cpath], timeout=600)
